@@ -245,8 +245,8 @@ func (w *Worker) solver(kind string) *Solver {
 	return s
 }
 
-var solverOrder = []string{"z3", "cvc5-int", "z3-new"}
-var solverOrderHard = []string{"cvc5-int", "z3", "z3-new"}
+var solverOrder = []string{"z3-new", "cvc5-int", "z3"}
+var solverOrderHard = []string{"cvc5-int", "z3-new", "z3"}
 
 func (w *Worker) solve(as []*Term, wantModel bool) (SatResult, map[string]uint64) {
 	order := solverOrder
